@@ -59,7 +59,7 @@ rm -rf "$RACEDIR"; mkdir -p "$RACEDIR"
 ITER=${C20_RACE_ITER:-200}
 (
   pids=()
-  for grp in S1,S2,S4 S3 S5,S5f,S6,S7; do
+  for grp in S1,S2,S4 S3,S8,S9 S5,S5f,S6,S7; do
     C20_ONLY=$grp GORACE="log_path=$RACEDIR/race.log halt_on_error=0 exitcode=0 history_size=3" \
       "$T/vcheck20race" race "$ITER" >"$RACEDIR/stdout.$grp" 2>"$RACEDIR/stderr.$grp" & pids+=($!)
   done
